@@ -459,3 +459,210 @@ func c21pinContext(c *Ctx, m *Module) {
 	}
 	c.Floor(rule+"/forwarding-sites", nSites, 10)
 }
+
+// c21apiVersionsIssued: a connection asks the broker for its version ranges
+// whenever the user's MaxVersions permits ApiVersions at ANY version,
+// including a cap of exactly v0 (kversion.V0_10_0..V0_10_2). Skipping the
+// request stores an empty table, after which neither broker bound takes part
+// in the negotiation.
+func c21apiVersionsIssued(c *Ctx, m *Module) {
+	rule := "apiversions-requested-unless-forbidden"
+	f := c.NeedFunc(m, "kgo.brokerCxn.init")
+	if f == nil {
+		return
+	}
+	info := f.Info()
+	g := f.Graph()
+	calls := callsNamed(f.Decl.Body, info, "requestAPIVersions", true)
+	c.Check(len(calls) == 1, rule, f.Key+"#call", f.Pos(), m, "", fmt.Sprintf("expected one requestAPIVersions call in connection init, found %d", len(calls)))
+	if len(calls) != 1 {
+		return
+	}
+	l, ok := g.LocOf(calls[0])
+	if !ok {
+		l, ok = g.LocOf(enclosingStmt(f.Decl.Body, calls[0]))
+	}
+	if !ok {
+		c.Undecided(rule, f.Key+": requestAPIVersions", calls[0].Pos(), m, "call not located in the CFG")
+		return
+	}
+	// locals holding the looked-up user maximum for key 18
+	lookups := map[types.Object]bool{}
+	ast.Inspect(f.Decl.Body, func(x ast.Node) bool {
+		as, ok := x.(*ast.AssignStmt)
+		if !ok || len(as.Rhs) != 1 {
+			return true
+		}
+		call, ok := unparen(as.Rhs[0]).(*ast.CallExpr)
+		if !ok || !strings.HasSuffix(calleeName(info, call), "LookupMaxKeyVersion") {
+			return true
+		}
+		if id, ok := as.Lhs[0].(*ast.Ident); ok {
+			o := info.Defs[id]
+			if o == nil {
+				o = info.Uses[id]
+			}
+			if o != nil {
+				lookups[o] = true
+			}
+		}
+		return true
+	})
+	var bad, unk []string
+	relevant := 0
+	for _, ft := range g.FactsAt(l) {
+		s := nosp(exprStr(ft.Cond))
+		mentions := strings.Contains(s, "maxVersions")
+		ast.Inspect(ft.Cond, func(x ast.Node) bool {
+			if id, ok := x.(*ast.Ident); ok && lookups[info.Uses[id]] {
+				mentions = true
+			}
+			return true
+		})
+		if !mentions {
+			continue
+		}
+		relevant++
+		switch {
+		case ft.Val && strings.Contains(s, ".maxVersions==nil||") && strings.HasSuffix(s, ".maxVersions.HasKey(18)"):
+		case !ft.Val && strings.Contains(s, ".maxVersions!=nil&&!") && strings.HasSuffix(s, ".maxVersions.HasKey(18)"):
+		default:
+			// a comparison of the looked-up maximum
+			if be, ok := unparen(ft.Cond).(*ast.BinaryExpr); ok {
+				if v, isC := constInt(info, be.Y); isC {
+					op := be.Op
+					val := ft.Val
+					// normalise to "holds when": x OP v
+					holdsAt0 := false
+					switch op {
+					case token.GTR:
+						holdsAt0 = 0 > v
+					case token.GEQ:
+						holdsAt0 = 0 >= v
+					case token.NEQ:
+						holdsAt0 = 0 != v
+					case token.EQL:
+						holdsAt0 = 0 == v
+					case token.LSS:
+						holdsAt0 = 0 < v
+					case token.LEQ:
+						holdsAt0 = 0 <= v
+					}
+					if !val {
+						holdsAt0 = !holdsAt0
+					}
+					if !holdsAt0 {
+						bad = append(bad, s)
+					}
+					continue
+				}
+			}
+			unk = append(unk, s)
+		}
+	}
+	switch {
+	case len(bad) > 0:
+		c.Fail(rule, f.Key+": requestAPIVersions", calls[0].Pos(), m, "ApiVersions is requested only under `"+strings.Join(bad, ", ")+"`, which is false for a user maximum of exactly v0 for key 18 (kversion.V0_10_0..V0_10_2): no ApiVersions request is sent, an empty version table is stored and the broker's advertised maximum and minimum drop out of every later negotiation")
+	case len(unk) > 0:
+		c.Undecided(rule, f.Key+": requestAPIVersions", calls[0].Pos(), m, "unrecognised guard on the ApiVersions request: "+strings.Join(unk, ", "))
+	default:
+		c.Check(relevant >= 1, rule, f.Key+": requestAPIVersions", calls[0].Pos(), m, "requested whenever key 18 is permitted at any version", "the ApiVersions request is not conditioned on the user's MaxVersions at all (a client pinned below 0.10.0 must not send it)")
+	}
+}
+
+// c21pinPerPiece: a context that carries a version pin belongs to one piece of
+// a split. The pieces of one split can carry DIFFERENT pins
+// (addPartitionsToTxnSharder: max 3 next to min 4), so the context built for
+// one piece must not be reused for another: context.WithValue(_, ctxPinReq, v)
+// inside a loop is stored in a variable of that iteration and v is the pin of
+// that iteration's own piece.
+func c21pinPerPiece(c *Ctx, m *Module) {
+	rule := "pin-context-per-piece"
+	pinKey := m.byPkg["kgo"].Types.Scope().Lookup("ctxPinReq")
+	if pinKey == nil {
+		c.Undecided("anchor", "kgo.ctxPinReq", 0, m, "not found")
+		return
+	}
+	n := 0
+	perFn := map[string]int{}
+	for _, f := range m.FuncsIn("kgo") {
+		if f.Decl == nil || f.Decl.Body == nil {
+			continue
+		}
+		info := f.Info()
+		var parents map[ast.Node]ast.Node
+		ast.Inspect(f.Decl.Body, func(x ast.Node) bool {
+			call, ok := x.(*ast.CallExpr)
+			if !ok || len(call.Args) != 3 || calleeName(info, call) != "context.WithValue" {
+				return true
+			}
+			id, ok := unparen(call.Args[1]).(*ast.Ident)
+			if !ok || info.Uses[id] != pinKey {
+				return true
+			}
+			n++
+			perFn[f.Key]++
+			c.Touch(f)
+			if parents == nil {
+				parents = parentMap(f.Decl.Body)
+			}
+			var loop ast.Node
+			for q := parents[call]; q != nil; q = parents[q] {
+				switch q.(type) {
+				case *ast.ForStmt, *ast.RangeStmt:
+					loop = q
+				}
+				if loop != nil {
+					break
+				}
+				if _, isLit := q.(*ast.FuncLit); isLit {
+					break
+				}
+			}
+			cons := fmt.Sprintf("%s: context.WithValue(ctxPinReq)#%d", f.Key, perFn[f.Key])
+			if loop == nil {
+				c.OK(rule, cons, call.Pos(), m, "not in a loop over pieces")
+				return true
+			}
+			within := func(o types.Object) bool { return o != nil && o.Pos() >= loop.Pos() && o.Pos() < loop.End() }
+			why := ""
+			// destination
+			if as, ok := parents[call].(*ast.AssignStmt); ok && len(as.Lhs) == 1 {
+				if lid, ok := as.Lhs[0].(*ast.Ident); ok {
+					o := info.Defs[lid]
+					if o == nil {
+						o = info.Uses[lid]
+					}
+					if !within(o) {
+						why = "the pinned context is stored in `" + lid.Name + "`, which outlives the iteration, and is reused for the other pieces of the split"
+					}
+				}
+			}
+			// pin value: a field of this iteration's own piece
+			if why == "" {
+				root := unparen(call.Args[2])
+				for {
+					if se, ok := root.(*ast.SelectorExpr); ok {
+						root = unparen(se.X)
+						continue
+					}
+					if ie, ok := root.(*ast.IndexExpr); ok {
+						root = unparen(ie.X)
+						continue
+					}
+					break
+				}
+				if rid, ok := root.(*ast.Ident); ok {
+					if o := info.Uses[rid]; o != nil && !within(o) {
+						if _, isVar := o.(*types.Var); isVar && o.Parent() != o.Pkg().Scope() {
+							why = "the pin comes from `" + rid.Name + "`, which is not this iteration's piece"
+						}
+					}
+				}
+			}
+			c.Check(why == "", rule, cons, call.Pos(), m, "built per piece from the piece's own pin", why+": pieces of one split can carry different pins (AddPartitionsToTxn: max 3 next to min 4), so a piece is negotiated under another piece's pin and written outside its own bound")
+			return true
+		})
+	}
+	c.Floor(rule+"/sites", n, 5)
+}
